@@ -17,14 +17,79 @@ from .model import FuncInfo, canon
 EMPTY = frozenset()
 
 
-class TagDomain(Domain):
+class EventsMixin:
+  """state.aux = (must, may) event sets + observation hooks."""
+
+  def _ev_init(self):
+    self.calls = {}
+    self.events = []
+    self.probes = []
+    self.eng = None
+
+  # ---- events
+  def aux_init(self):
+    return (EMPTY, EMPTY)
+
+  def aux_join(self, a, b):
+    if a is None:
+      return b
+    if b is None:
+      return a
+    return (a[0] & b[0], a[1] | b[1])
+
+  def event(self, st, ev):
+    must, may = st.aux
+    st.aux = (must | {ev}, may | {ev})
+
+  def must(self, st):
+    return st.aux[0]
+
+  def may(self, st):
+    return st.aux[1]
+
+  def cur(self):
+    return self.eng.stack[-1] if (self.eng and self.eng.stack) else None
+
+  def site(self, node):
+    f = self.cur()
+    if f is None:
+      return '?'
+    return '%s:%d %s' % (f.module.relpath, getattr(node, 'lineno', 0),
+                         f.qualname)
+
+  def on_call(self, kind, target, args, kwargs, node, st):
+    if kind == 'repo':
+      self.event(st, ('call', target.key))
+    elif kind == 'ext':
+      self.event(st, ('call', target))
+      if target == 'warnings.warn':
+        cat = kwargs.get('category') or (args[1] if len(args) > 1 else None)
+        name = 'UserWarning'
+        if cat is not None and cat.fn and cat.fn[0] == 'ext':
+          name = cat.fn[1].rsplit('.', 1)[-1]
+        self.event(st, ('warn', name))
+    elif kind == 'method':
+      self.event(st, ('mcall', target[1]))
+    elif kind == 'class':
+      self.event(st, ('new', target.key))
+    for pred, cb in self.probes:
+      if pred(kind, target, node):
+        cb(kind, target, args, kwargs, node, st)
+
+  def on_store_attr(self, objv, attr, val, node, st):
+    if objv.obj is not None:
+      self.event(st, ('store', objv.obj.oid if objv.obj.oid == 'self'
+                      else objv.obj.cls.name, attr))
+
+  def on_raise(self, excnames, node, st):
+    self.events.append(('raise', excnames, node, self.cur()))
+
+
+class TagDomain(EventsMixin, Domain):
   name = 'tags'
 
   def __init__(self):
-    self.calls = {}        # (relpath, lineno, col) -> record
-    self.events = []       # free-form observations (kind, info...)
-    self.probes = []       # [(predicate(kind,target,node), callback)]
-    self.eng = None
+    self._ev_init()
 
   # ---- payload
   def top(self, node=None):
@@ -118,54 +183,3 @@ class TagDomain(Domain):
   def on_augassign(self, kind, target, op, val, node, st):
     return self.flow(self._u(target, val))
 
-  # ---- events
-  def aux_init(self):
-    return (EMPTY, EMPTY)
-
-  def aux_join(self, a, b):
-    if a is None:
-      return b
-    if b is None:
-      return a
-    return (a[0] & b[0], a[1] | b[1])
-
-  def event(self, st, ev):
-    must, may = st.aux
-    st.aux = (must | {ev}, may | {ev})
-
-  def must(self, st):
-    return st.aux[0]
-
-  def may(self, st):
-    return st.aux[1]
-
-  def cur(self):
-    return self.eng.stack[-1] if (self.eng and self.eng.stack) else None
-
-  def site(self, node):
-    f = self.cur()
-    if f is None:
-      return '?'
-    return '%s:%d %s' % (f.module.relpath, getattr(node, 'lineno', 0),
-                         f.qualname)
-
-  def on_call(self, kind, target, args, kwargs, node, st):
-    if kind == 'repo':
-      self.event(st, ('call', target.key))
-    elif kind == 'ext':
-      self.event(st, ('call', target))
-    elif kind == 'method':
-      self.event(st, ('mcall', target[1]))
-    elif kind == 'class':
-      self.event(st, ('new', target.key))
-    for pred, cb in self.probes:
-      if pred(kind, target, node):
-        cb(kind, target, args, kwargs, node, st)
-
-  def on_store_attr(self, objv, attr, val, node, st):
-    if objv.obj is not None:
-      self.event(st, ('store', objv.obj.oid if objv.obj.oid == 'self'
-                      else objv.obj.cls.name, attr))
-
-  def on_raise(self, excnames, node, st):
-    self.events.append(('raise', excnames, node, self.cur()))
